@@ -230,6 +230,12 @@ class CounterToken(Token, FileSystemEventHandler):
         self.watcher = ipcom().fswatch(self, self.path, recursive=True)
         logger.info("Watching %s", self.watchedpath)
 
+        # Token files can disappear between the first read and the moment the
+        # watcher is set up (a stale token of a dead job is reclaimed right
+        # away): read the state again now that no change can be missed
+        with self.lock, self.ipc_lock:
+            self._update()
+
     def _update(self):
         """Update the state by reading all the information from disk
 
